@@ -113,9 +113,99 @@ def make_session(r, i):
     return c, [{"how": "noswap", "queries": True, "tables": tables}]
 
 
+CATS = {"Order": 0, "Superfamily": 1}
+DIRS = {"Upstream": 0, "Intra": 1, "Downstream": 2}
+
+
+def lookup_unit(chk, r):
+    """The translator's reading of get_specific_slice, exercised: label lists (names repeated on an axis, a name on both axes, windows in
+    any order) with arrays whose cells name their own position; valid and invalid queries through the REAL function and through the
+    TRANSLATED gen_get_specific_slice / gen_index_of_gene (vm_compute): the same cell selected, or both refuse."""
+    n = 60 if chk.tier == "quick" else 1500
+    cases = []
+    for _ in range(n):
+        pool_names = ["LTR", "DNA", "Gypsy", "hAT", "ltr", "Hélitron", "LINE", "Total_TE_Density"]
+        orders = r.sample(pool_names, r.randint(1, 4))
+        supers = r.sample(pool_names, r.randint(1, 5))
+        if r.random() < 0.2:
+            orders.append(orders[0])                 # a label twice on an axis: the dictionary keeps the last position
+        windows = r.sample(range(0, 4000, 250), r.randint(1, 4))
+        genes = ["g%d" % i for i in r.sample(range(30), r.randint(1, 5))]
+        if r.random() < 0.15:
+            genes.append(genes[0])                   # list.index gives the first position
+        qs = []
+        for _q in range(12):
+            cat = r.choice(["Order", "Superfamily", "Order", "Superfamily", "order", "Family"])
+            direction = r.choice(["Upstream", "Intra", "Downstream", "Upstream", "Downstream", "upstream", "Left"])
+            name = r.choice(orders + supers + ["Absent"])
+            w = r.choice(windows + windows + [None, 123])
+            qs.append([cat, name, direction, w])
+        cases.append({"orders": orders, "supers": supers, "windows": windows, "genes": genes, "queries": qs,
+                      "gene_queries": [r.choice(genes + ["nope"]) for _ in range(4)]})
+    reps = pool.run_requests([{"op": "reader.lookup_unit", "cases": cases[i:i + 30]} for i in range(0, len(cases), 30)], timeout=120)
+    real = []
+    for rep in reps:
+        real += rep["results"] if rep.get("ok") else [None] * 30
+    real = real[:len(cases)]
+    chk.oblige("real get_specific_slice executed on every label layout", all(x is not None for x in real), json.dumps([x for x in reps if not x.get("ok")][:1])[:1500])
+    exprs = []
+    for c in cases:
+        ids = {}
+        def nm(s_):
+            return "%d%%N" % ids.setdefault(s_, len(ids) + 1)
+        O = "[" + "; ".join(nm(x) for x in c["orders"]) + "]"
+        S = "[" + "; ".join(nm(x) for x in c["supers"]) + "]"
+        W = "[" + "; ".join(common.zlit(w) for w in c["windows"]) + "]"
+        gids = {}
+        def gm(s_):
+            return "%d%%N" % gids.setdefault(s_, len(gids) + 1)
+        G = "[" + "; ".join(gm(x) for x in c["genes"]) + "]"
+        parts = []
+        for cat, name, direction, w in c["queries"]:
+            parts.append("match gen_get_specific_slice %d %d %s %s %s %s %s with Some (lv, sd, t, j) => "
+                         "[match lv, sd with LOrd, SL => 1 | LOrd, SI => 2 | LOrd, SR => 3 | LSup, SL => 4 | LSup, SI => 5 | LSup, SR => 6 end; Z.of_nat t; Z.of_nat j] | None => [0; 0; 0] end"
+                         % (CATS.get(cat, 7), DIRS.get(direction, 7), nm(name), "None" if w is None else "(Some %s)" % common.zlit(w), O, S, W))
+        for g in c["gene_queries"]:
+            parts.append("[match gen_index_of_gene %s %s with Some i => Z.of_nat i | None => -1 end]" % (G, gm(g)))
+        exprs.append(" ++ ".join(parts))
+    try:
+        flats = common.coq_eval("c08lookup", "From TEV Require Import Model.Pipeline Model.Reader Gen.GenLookup.", "", exprs, chunk=20)
+        chk.oblige("translated get_specific_slice evaluated (vm_compute) on every query", True)
+    except Exception as e:
+        chk.oblige("translated get_specific_slice evaluated (vm_compute) on every query", False, str(e)[-1500:])
+        return
+    nd, first, nq = 0, None, 0
+    for c, rr, f in zip(cases, real, flats):
+        if rr is None:
+            continue
+        ng = len(c["genes"])
+        for qi, (q, res) in enumerate(zip(c["queries"], rr["queries"])):
+            nq += 1
+            chk.cov["evaluations"] += 1
+            aid, t, j = f[3 * qi:3 * qi + 3]
+            if res["ok"]:
+                want = [((aid * 100 + t) * 100 + j) * 100 + g for g in range(ng)]
+                same = aid != 0 and res["cells"] == want
+            else:
+                same = aid == 0
+            chk.count("lookup_unit:%s" % ("selected" if res["ok"] else "refused"))
+            if not same:
+                nd += 1
+                first = first or {"layout": {k: c[k] for k in ("orders", "supers", "windows", "genes")}, "query": q, "real": res, "translated": [aid, t, j]}
+        base = 3 * len(c["queries"])
+        for gi, (g, ri) in enumerate(zip(c["gene_queries"], rr["gene_indices"])):
+            m = f[base + gi]
+            if (ri if ri is not None else -1) != m:
+                nd += 1
+                first = first or {"genes": c["genes"], "gene": g, "real": ri, "translated": m}
+    chk.oblige("translated lookup = real get_specific_slice / _index_of_gene on every query: same array, group index and window index selected, or both refuse (%d queries, %d differ)"
+               % (nq, nd), nd == 0, json.dumps(first)[:2500] if first else "")
+
+
 def run(chk):
     pipefam.standard_obligations(chk, "C08.v")
     pipefam.overlap_unit(chk, chk.rng("overlap_unit"))
+    lookup_unit(chk, chk.rng("lookup_unit"))
     n = 24 if chk.tier == "quick" else 400
     r = chk.rng("cases")
     sessions = [make_session(r, i) for i in range(n)]
